@@ -12,7 +12,7 @@ import (
 )
 
 var vDollarChars = []string{"", "$", "{", "}", "A", "B", "-", " ", "l",
-	"$(pkg-config --libs c1)", "$(pkg-config --libs c2)", "$(pkg-config --libs c3)", "/"}
+	"$(pkg-config --libs c1)", "$(pkg-config --libs c2)", "$(pkg-config --libs c3)", "/", "$(other)"}
 
 func vDollarStr(toks []int) string {
 	var b strings.Builder
